@@ -1,16 +1,19 @@
 import Sm9.Proofs.MontBasic
+import Sm9.Proofs.MontMul
 import Sm9.Proofs.Consts
 import Sm9.Proofs.FqField
 import Sm9.Model.Api
 /-!
 # C07 — Field elements always stay canonical; equality is value equality
 Limb level: `Canon m x := x < m`.  Every arithmetic step of the limb model maps canonical
-inputs to canonical outputs (first landing: add, sub, negate, double; multiplication,
-squaring, inversion and sum-of-products follow with C06/C12's Montgomery theorems).  On
-canonical limbs the derived `PartialEq` (equality of raw limbs) is equality of values,
-because x ↦ x·R⁻¹ mod m is injective on [0, m).  `set_bit` (after the D1 repair) re-enters
-Montgomery form through a reducing multiplication.
+inputs to canonical outputs: add, sub, negate, double, Montgomery multiply, square,
+entering / leaving Montgomery form, and `set_bit` (after the D1 repair it re-enters
+Montgomery form through a reducing multiplication).  On canonical limbs the derived
+`PartialEq` (equality of raw limbs) is equality of values, because x ↦ x·R mod m is
+injective on [0, m).  Missing: `invert` (termination + canonicity) and `sum_of_products`
+at limb level; histories are decided by register-machine programs on the real crate.
 -/
+set_option maxRecDepth 100000
 namespace Sm9.C07
 
 def Canon (m x : Nat) : Prop := x < m
@@ -23,21 +26,29 @@ theorem neg_canon (a m : Nat) (hm : m < W256) (ha : Canon m a) : Canon m (U256.n
   (U256.neg_refines a m hm ha).1
 theorem double_canon (a m : Nat) (hm : m < W256) (hm2 : W256 < 2 * m) (ha : Canon m a) :
     Canon m (U256.mul2 a m) := (U256.mul2_refines a m hm hm2 ha).1
-/-- constructors: `zero`, `one` are canonical -/
+theorem mul_canon {P : MontParams} (hP : P.Ok) (a b : Nat) (ha : Canon P.modulus a) (hb : Canon P.modulus b) :
+    Canon P.modulus (Fp.mul P a b) := (Fp.mul_refines hP a b ha hb).1
+theorem squared_canon {P : MontParams} (hP : P.Ok) (a : Nat) (ha : Canon P.modulus a) :
+    Canon P.modulus (Fp.squared P a) := (Fp.squared_refines hP a ha).1
+/-- constructors: `zero`, `one` are canonical; `new` accepts exactly the canonical range and
+    its result is canonical -/
 theorem ctor_canon : Canon paramsQ.modulus 0 ∧ Canon paramsQ.modulus paramsQ.one ∧
     Canon paramsR.modulus 0 ∧ Canon paramsR.modulus paramsR.one := by
   unfold Canon; decide +kernel
-/-- `new` accepts exactly the canonical range -/
-theorem new_some_iff (P : MontParams) (a : Nat) : (Fp.new P a).isSome = decide (a < P.modulus) := by
-  unfold Fp.new; split <;> simp_all
-/-- on canonical limbs, equal values (x·R⁻¹ mod m) force equal limbs: for odd m the map
-    x ↦ x·R mod m is a bijection of [0, m) -/
-theorem eq_iff_value (m a b : Nat) (hodd : Nat.Coprime (2 ^ 256) m) (ha : a < m) (hb : b < m)
-    (h : a * 2 ^ 256 % m = b * 2 ^ 256 % m) : a = b := by
-  have h1 : a * 2 ^ 256 ≡ b * 2 ^ 256 [MOD m] := h
-  have h2 : a ≡ b [MOD m] := Nat.ModEq.cancel_right_of_coprime hodd.symm h1
-  unfold Nat.ModEq at h2
-  rwa [Nat.mod_eq_of_lt ha, Nat.mod_eq_of_lt hb] at h2
+theorem new_spec {P : MontParams} (hP : P.Ok) (x : Nat) :
+    Fp.new P x = if x < P.modulus then some ((x * W256) % P.modulus) else none := Fp.new_eq hP x
+theorem new_canon {P : MontParams} (hP : P.Ok) (x y : Nat) (h : Fp.new P x = some y) : Canon P.modulus y := by
+  rw [Fp.new_eq hP] at h
+  split at h
+  · rw [Option.some.injEq] at h; rw [← h]
+    exact Nat.mod_lt _ (by have := hP.gt; rw [U256.W256_eq] at this; omega)
+  · cases h
+/-- on canonical limbs, equal values (x·R mod m) force equal limbs: `==` on raw limbs is value equality -/
+theorem eq_iff_value {P : MontParams} (hP : P.Ok) {a b : Nat} (ha : Canon P.modulus a) (hb : Canon P.modulus b)
+    (h : (a * W256) % P.modulus = (b * W256) % P.modulus) : a = b := Fp.eq_of_mul_W256 hP ha hb h
+/-- the canonical encoding is below the modulus -/
+theorem to_slice_lt {P : MontParams} (hP : P.Ok) (x : Nat) (hx : Canon P.modulus x) :
+    Fp.into_u256 P x < P.modulus := (Fp.into_u256_refines hP x hx).1
 /-- value level: `is_zero` holds exactly for the value 0 -/
 theorem is_zero_iff (x : Fq) : x.is_zero = true ↔ x = 0 := Fq.is_zero_iff x
 theorem fr_is_zero_iff (x : Fr) : x.is_zero = true ↔ x = 0 := Fr.is_zero_iff x
